@@ -50,6 +50,7 @@ Definition frun_op (k : fkb) (roots : list nat) (s : fstate) (op : sx) : fstate 
   | L [A 9] => (s, L [ebool (f_has_contradiction k reg s)])
   | L [A 10] => let s' := f_flush reg s in (s', L [efstate n s'])
   | L [A 11; i; w] => let s' := f_reset_world s (dnat i) (dbnd w) in (s', L [efstate n s'])
+  | L [A 14] => (s, L [eq_ (Qred (f_contradiction_loss k reg s))])
   | L [A 12; i; g] => (s, L [ebnd (fget s (dnat i) (dgnd g)); efstate n s])
   | _ => (s, bad)
   end.
